@@ -588,7 +588,9 @@ pub fn judge(before: &M, applied: &Applied, after_readout: Option<&M>) -> Result
             let lm = after_readout.expect("readout of Ok result");
             let old: BTreeSet<D32> = before.assertions().iter().map(|a| a.digest()).collect();
             let new: Vec<&M> = lm.assertions().iter().filter(|a| !old.contains(&a.digest())).collect();
-            if new.is_empty() && *allow_zero && before.assertions().iter().any(|a| shape(a).is_ok()) {
+            // a deterministic operation repeated: the equal assertion is already there (possibly in obscured
+            // form, which has the same digest), so nothing is added
+            if new.is_empty() && *allow_zero {
                 return bridge::agree(lm, before).map_err(|s| format!("receiver content changed: {}", s));
             }
             if new.len() != 1 {
